@@ -248,19 +248,13 @@ Qed.
 (* ---------------------------------------------------------------------- *)
 (* keys                                                                     *)
 (* ---------------------------------------------------------------------- *)
-(* a key that key cleaning can process: not a number when no precision is in force (K8) *)
-Definition key_cleanable (F : opts) (k : atom) : bool :=
-  match k with
-  | ABool _ | AInt _ | AHalf _ => match eff_sig F with Some _ => true | None => false end
-  | _ => true
-  end.
-
-Lemma clean_key_ok : forall F k, key_cleanable F k = true -> exists ck, clean_key F k = Ok ck.
+(* key cleaning never fails (since d664dbb) *)
+Lemma clean_key_ok : forall F k, exists ck, clean_key F k = Ok ck.
 Proof.
-  intros F k H. destruct k; cbn in *; try (eexists; reflexivity).
-  - destruct (eff_sig F); [eexists; reflexivity|discriminate].
-  - destruct (eff_sig F); [eexists; reflexivity|discriminate].
-  - destruct (eff_sig F); [eexists; reflexivity|discriminate].
+  intros F k. destruct k; cbn [clean_key dy_of_atom]; try (eexists; reflexivity).
+  - destruct (eff_sig F); eexists; reflexivity.
+  - destruct (eff_sig F); eexists; reflexivity.
+  - destruct (eff_sig F); eexists; reflexivity.
   - destruct (o_strty F); eexists; reflexivity.
 Qed.
 
@@ -295,20 +289,4 @@ Proof.
       cbn [dy_of_atom] in Ea, Eb, Ha, Hb; inversion Ea; inversion Eb; subst;
       inversion Ha; inversion Hb; subst; cbn [py_eq num2];
       unfold num_str; rewrite H, Htag; apply pystr_eqb_refl.
-Qed.
-
-(* altK-related keys are cleanable together, bytes together (unless decoded), private together *)
-Lemma altK_cleanable : forall F a b, cleaning F = true -> altK F a b = true -> key_cleanable F a = true -> key_cleanable F b = true.
-Proof.
-  intros F a b Hc H Ha. unfold altK in H. rewrite Hc in H.
-  apply orb_true_iff in H. destruct H as [H|H].
-  - apply orb_true_iff in H. destruct H as [H|H].
-    + apply atom_eqb_eq in H. subst. exact Ha.
-    + apply andb_true_iff in H. destruct H as [H _]. unfold str_rel in H.
-      apply andb_true_iff in H. destruct H as [H _]. apply andb_true_iff in H. destruct H as [H _].
-      apply andb_true_iff in H. destruct H as [_ Hsb].
-      destruct b; cbn in Hsb; try discriminate; reflexivity.
-  - apply andb_true_iff in H. destruct H as [_ H]. unfold sig_rel in H.
-    destruct (eff_sig F) eqn:Es; [|discriminate].
-    destruct b; cbn; rewrite ?Es; reflexivity.
 Qed.
